@@ -13,7 +13,7 @@ import ast
 from dataclasses import dataclass, field
 
 from . import thirdparty as TP
-from .cfg import CFG, own_statements
+from .cfg import CFG, EXIT, own_statements
 from .model import CORE_CLASSES, ClassInfo, External, FunctionInfo, ModuleInfo, Repo
 
 
@@ -39,6 +39,7 @@ class RngSummary:
     seeds: list = field(default_factory=list)  # (family, stmt)
     draw_sites: int = 0
     notes: list = field(default_factory=list)
+    seeds_on_exit: set = field(default_factory=set)  # families seeded from the seed parameter on every path to the exit
 
 
 def _unparse(n, k=80):
@@ -140,6 +141,16 @@ class RngAnalysis:
                         anchor = ifn
                     seeding.setdefault(fam, []).append(anchor)
                     summ.seeds.append((fam, st))
+                elif isinstance(tgt, FunctionInfo) and tgt.fq != fn.fq and seedname:
+                    # a seeding helper: `_seed(seed)` whose every path seeds the family from its own seed parameter
+                    cs = self.summarize(tgt)
+                    if cs.seeds_on_exit and cs.seed_param:
+                        pos = tgt.all_params.index(cs.seed_param) - (1 if tgt.cls is not None else 0)
+                        if self._call_passes_seed(st.value, cs.seed_param, pos, tainted):
+                            for fam2 in cs.seeds_on_exit:
+                                seeding.setdefault(fam2, []).append(st)
+                                summ.seeds.append((fam2, st))
+                            summ.guards.extend(cs.guards)
         # pass 2: draws
         for st in stmts:
             for call in self._calls_of(st):
@@ -156,6 +167,9 @@ class RngAnalysis:
                         if anchors:
                             summ.notes.append(f"{fam} is seeded in {fn.qualname} but the seeding does not dominate the draw at line {d.line}")
                         summ.free.add(d)
+        for fam, anchors in seeding.items():
+            if cfg.dominated_by(EXIT, lambda n, a=anchors: any(n is x for x in a)):
+                summ.seeds_on_exit.add(fam)
         return summ
 
     def _guard_ok(self, test, seedname, branch):
